@@ -478,7 +478,7 @@ func Run(opt Options) int {
 			"samples":                       samples,
 			"exhaustive":                    total.incomplete == 0,
 			"explanation": "states = feasible symbolic paths of the real SSA explored to completion (each stands for all scalar inputs satisfying its path condition); " +
-				"transitions = solver-decided branch decisions; every assertion on every path is discharged by an SMT query (unsat = holds for all values on that path)",
+				"transitions = branch decisions (solver feasibility queries where the condition is symbolic, enumerated choices otherwise); an assertion is decided on every path: by term identity when the negation folds to false (assert_concrete_true), otherwise by an SMT query (assert_unsat = holds for all values on that path, assert_sat = counterexample, replayed natively)",
 			"harnesses":             hev,
 			"functions_encoded":     fnames,
 			"functions_encoded_n":   len(fnames),
